@@ -31,6 +31,9 @@ func main() {
 	seen := map[string]bool{}
 	for _, sc := range checks.C09Scenarios(false) {
 		for _, n := range sc {
+			if len(n) > 0 && n[0] == '!' {
+				continue // scenario marker, not a body
+			}
 			if !seen[n] {
 				seen[n] = true
 				names = append(names, n)
@@ -70,6 +73,48 @@ func main() {
 			}
 			wg.Wait()
 		}
+	}
+	// cold rounds: the shared trees are parsed anew and the very first evaluations of them are the
+	// concurrent ones (per-node state that is filled lazily is only racy while it is cold)
+	var evals []string
+	for _, n := range names {
+		if len(n) > 4 && (n[:5] == "eval:" || n[:5] == "field") {
+			evals = append(evals, n)
+		}
+	}
+	runtime.GOMAXPROCS(16)
+	for round := 0; round < 40; round++ {
+		if err := checks.C09Setup(); err != nil {
+			fmt.Println(err)
+			os.Exit(2)
+		}
+		var wg sync.WaitGroup
+		var start sync.WaitGroup
+		start.Add(1)
+		var mu sync.Mutex
+		for t := 0; t < 8; t++ {
+			t := t
+			wg.Add(1)
+			go func() {
+				defer wg.Done()
+				start.Wait()
+				for i := range evals {
+					n := evals[(i+t)%len(evals)]
+					obs := checks.C09Body(n)()
+					mu.Lock()
+					runs++
+					if obs != seq[n] {
+						mismatches++
+						if firstMismatch == "" {
+							firstMismatch = fmt.Sprintf("cold round %d, %s: concurrent %q, sequential %q", round, n, obs, seq[n])
+						}
+					}
+					mu.Unlock()
+				}
+			}()
+		}
+		start.Done()
+		wg.Wait()
 	}
 	// deep + concurrent: G goroutines are all inside one deeply nested shared formula at the same
 	// time (a barrier host function at the innermost level makes the overlap certain)
